@@ -23,6 +23,9 @@ def subharnesses(tier):
         subs.append(('rule-%s' % op, {'mgr': 'rule', 'op': op}))
     for op in ('create', 'unlink', 'unlink_all', 'gc'):
         subs.append(('spec-%s' % op, {'mgr': 'spec', 'op': op}))
+    for op in ('create_known', 'create_new', 'delete', 'synchronize',
+               'create_twice'):
+        subs.append(('netsvc-%s' % op, {'mgr': 'netsvc', 'op': op}))
     return subs
 
 
@@ -281,10 +284,128 @@ def _spec(S, spec):
                                         if o is not None))
 
 
+# ------------------------------------------------- network resource service
+
+RSRC = ['proid.a-0000000001-aaaaaaaaaaaaa', 'proid.b-0000000002-bbbbbbbbbbbbb',
+        'proid.c-0000000003-ccccccccccccc']
+
+
+def _netsvc(S, spec):
+    """NetworkResourceService.on_create_request / on_delete_request /
+    synchronize over the real VipMgr: a request keeps its IP, stale requests
+    lose theirs, nothing else changes."""
+    from treadmill import vipfile
+    from treadmill.services import network_service as ns
+    d, _o = _setup(S)
+    rsrc_dir = os.path.join(d, 'resources')
+    vips = os.path.join(d, 'vips')
+    os.makedirs(rsrc_dir)
+    devices_up = set()
+
+    class _NetDev:
+        def __getattr__(self, name):
+            def f(*a, **k):
+                if name == 'link_add_veth':
+                    devices_up.add(a[0])
+                elif name == 'link_del_veth':
+                    devices_up.discard(a[0])
+                elif name == 'dev_state':
+                    if a[0] not in devices_up:
+                        raise OSError(errno.ENOENT, 'no device')
+                    return 'up'
+                elif name == 'dev_mtu':
+                    return 1500
+                return None
+            return f
+    ns.netdev = _NetDev()
+    marks = set()
+    ns._add_mark_rule = lambda ip, env: marks.add((ip, env))
+    ns._delete_mark_rule = lambda ip, env: marks.discard((ip, env))
+    ns.iptables.atomic_set = lambda *a, **k: None
+    ns._device_info = lambda dev: {'device': dev, 'alias': None, 'mtu': 1500}
+    svc = ns.NetworkResourceService.__new__(ns.NetworkResourceService)
+    svc._vips = vipfile.VipMgr('10.0.0.0/29', vips, rsrc_dir)
+    svc._devices = {}
+    svc._bridge_mtu = 1500
+    svc.ext_device, svc.ext_mtu, svc.ext_speed = 'eth0', 1500, 10000
+    svc.ext_ip = '10.1.1.1'
+    hosts = ['10.0.0.%d' % i for i in range(1, 7)]
+    # symbolic pre-state: requests r0, r1 known to the service or not; a
+    # vip of an owner whose request is gone (left from before a restart)
+    table = {}
+    nxt = 0
+    for i in (0, 1):
+        st = ('absent', 'fresh', 'stale')[S.choice('request%d' % i, 3)]
+        if st == 'absent':
+            continue
+        open(os.path.join(rsrc_dir, RSRC[i]), 'w').close()
+        ip = hosts[nxt]
+        nxt += 1
+        os.symlink(os.path.relpath(os.path.join(rsrc_dir, RSRC[i]), vips),
+                   os.path.join(vips, ip))
+        table[ip] = RSRC[i]
+        dev = {'ip': ip, 'environment': 'dev', 'stale': st == 'stale'}
+        if S.flag('request%d_has_device' % i):
+            veth0, _v1 = ns._device_from_rsrc_id(RSRC[i])
+            dev['device'] = veth0
+            devices_up.add(veth0)
+        svc._devices[RSRC[i]] = dev
+    if S.flag('orphan_vip'):
+        ip = hosts[nxt]
+        nxt += 1
+        os.symlink(os.path.relpath(os.path.join(rsrc_dir, 'gone'), vips),
+                   os.path.join(vips, ip))
+        table[ip] = 'gone'
+    op = spec['op']
+    data = {'environment': 'dev'}
+    if op in ('create_known', 'create_twice'):
+        i = S.choice('which', 2)
+        S.assume(RSRC[i] in svc._devices)
+        had = svc._devices[RSRC[i]]['ip']
+        for _r in range(2 if op == 'create_twice' else 1):
+            res = svc.on_create_request(RSRC[i], dict(data))
+            S.reach('request_served')
+            S.check('C14:repeated_request_got_another_ip', res['vip'] == had,
+                    {'had': had, 'got': res['vip']})
+    elif op == 'create_new':
+        open(os.path.join(rsrc_dir, RSRC[2]), 'w').close()
+        res = svc.on_create_request(RSRC[2], dict(data))
+        S.reach('request_served')
+        S.check('C14:new_request_got_an_ip_that_has_an_owner',
+                res['vip'] not in table, {'ip': res['vip'], 'table': table})
+        S.check('C14:allocated_ip_outside_network', res['vip'] in hosts)
+        table[res['vip']] = RSRC[2]
+    elif op == 'delete':
+        i = S.choice('which', 3)
+        svc.on_delete_request(RSRC[i])
+        for ip, o in list(table.items()):
+            if o == RSRC[i] and i < 2:
+                S.reach('freed_by_owner')
+                del table[ip]
+        S.check('C14:deleted_request_still_known', RSRC[i] not in svc._devices)
+    elif op == 'synchronize':
+        stale = [r for r, dv in svc._devices.items() if dv.get('stale')]
+        svc.synchronize()
+        for ip, o in list(table.items()):
+            if o in stale or o == 'gone':
+                S.reach('reclaimed')
+                del table[ip]
+        S.check('C14:stale_request_survives_synchronize',
+                not any(r in svc._devices for r in stale))
+    _expect(S, 'C14:vip_table_wrong_after_network_service_call', vips, table)
+    owners = [o for o in fsx.links(vips).values()]
+    S.check('C14:ip_table_and_service_state_disagree',
+            sorted(dv['ip'] for dv in svc._devices.values()) ==
+            sorted(ip for ip, o in table.items() if o in svc._devices),
+            {'devices': {k: v.get('ip') for k, v in svc._devices.items()},
+             'table': table})
+
+
 def harness(S, spec):
     import logging
     logging.disable(logging.CRITICAL)
-    {'vip': _vip, 'rule': _rule, 'spec': _spec}[spec['mgr']](S, spec)
+    {'vip': _vip, 'rule': _rule, 'spec': _spec,
+     'netsvc': _netsvc}[spec['mgr']](S, spec)
     S.reach('stepped')
 
 
@@ -299,5 +420,5 @@ META = {
     'reach_required': ['stepped', 'alloc_ok', 'alloc_refused',
                        'freed_by_owner', 'free_by_non_owner', 'reclaimed',
                        'created', 'create_refused', 'unlinked_by_owner',
-                       'unlink_by_non_owner'],
+                       'unlink_by_non_owner', 'request_served'],
 }
